@@ -9,7 +9,7 @@
 (* the namespaces.  These are the layouts in which a scope pushed for V or *)
 (* E must be popped again before S is written.                             *)
 (***************************************************************************)
-EXTENDS XotHtml, TLC, Json
+EXTENDS XotHtmlL2, TLC, Json
 CONSTANTS Dump
 Nd(k, p, c, ns, ln, t, u) == [k |-> k, p |-> p, c |-> c, ns |-> ns, ln |-> ln, t |-> t, u |-> u, d |-> FALSE]
 AddN(N, parent, nd) == [Append(N, [nd EXCEPT !.p = parent]) EXCEPT ![parent].c = Append(@, Len(N) + 1)]
@@ -42,5 +42,11 @@ Next == /\ F = Blank
              /\ F' = [n |-> Mk(outer.rd, outer.en, outer.ens, vn, vns, vd, sn, sns), cons |-> TRUE, eo |-> FALSE]
 Spec == Init /\ [][Next]_vars
 ValidInput == StructValidCore(F.n)
+XhtmlHttps == "https://www.w3.org/1999/xhtml"
+\* the transcription of the HTML serializer's name / declaration choices satisfies the rules, whichever namespace is
+\* taken to be XHTML (the layouts use the http one: under the https reading they exercise "foreign namespace" paths)
+L2HtmlRefines == F = Blank \/ (L2HtmlRefinesAt(F.n, 1, XhtmlNs) /\ L2HtmlRefinesAt(F.n, 1, XhtmlHttps))
+\* the serializer refuses (MissingPrefix) only when some name really has no usable binding
+L2HtmlTotal == F = Blank \/ (Usable(F.n, 1) => L2Html(F.n, 1, XhtmlNs).ok)
 DumpState == Dump /\ F # Blank => PrintT("STATE " \o ToJson(F))
 =============================================================================
